@@ -79,3 +79,43 @@ func CheckVersion(from)
   pure
   ensures [C16] PrevVersion <= from && from < Version
 @*/
+
+/*@
+module vote
+props C17
+dialect neovm
+
+// C17: vote collection (notary-disabled mode of the main-chain contract).
+pure ballots(s Store) L_Ballot = deser_L_Ballot(s.get("ballots"))
+
+// returns the first key of the list that carries a witness, or nil: only witnessed Alphabet keys ever vote
+func InnerRingInvoker(ir) (r)
+  pure
+  ensures [C17] len(r) == 0 || W(r)
+  ensures [C17] len(r) == 0 || (exists i Int :: 0 <= i && i < len(ir) && ir[i] == r)
+  loop 0
+    invariant true
+
+func Vote(ctx, id, from) (n)
+  requires [C17] W(from)
+  ensures [C17] n >= 1
+  // stale ballots expire: whatever is stored afterwards is at most 20 blocks old
+  ensures [C17] store == old(store) || (store.has("ballots")
+        && (forall i Int {ballots(store)[i]} :: 0 <= i && i < len(ballots(store)) ==> height - ballots(store)[i].Height <= 20))
+  // only the ballot list is written
+  ensures [C17] forall k Bytes {store.opt(k)} :: k != "ballots" ==> store.opt(k) == old(store).opt(k)
+  ensures notifs == old(notifs)
+  loop 0
+    invariant found == 0 - 1 || found >= 1
+    invariant store == old(store)
+    invariant forall i Int {newCandidates[i]} :: 0 <= i && i < len(newCandidates) ==> blockHeight - newCandidates[i].Height <= 20
+  loop 1
+    invariant store == old(store)
+
+func RemoveVotes(ctx, id)
+  ensures [C17] store.has("ballots")
+  ensures [C17] forall k Bytes {store.opt(k)} :: k != "ballots" ==> store.opt(k) == old(store).opt(k)
+  ensures notifs == old(notifs)
+  loop 0
+    invariant store == old(store)
+@*/
